@@ -131,7 +131,7 @@ pub fn open_and_continue(dir: &str, cfg: &Cfg, do_cont: bool) -> Value {
             Ok(())
         }));
         let res1 = match r {
-            Ok(Ok(())) => match wait_cb(fid, Duration::from_secs(60)) {
+            Ok(Ok(())) => match wait_cb(fid, Duration::from_secs(20)) {
                 Some(true) => "ok".to_string(),
                 Some(false) => "err:cb".to_string(),
                 None => "err:cb_timeout".to_string(),
